@@ -4,10 +4,10 @@ import (
 	"bytes"
 	"errors"
 	"fmt"
-	"strings"
 	"os"
 	"path/filepath"
 	"runtime"
+	"strings"
 	"sync/atomic"
 	"testing"
 
@@ -42,8 +42,8 @@ type c29It struct {
 type c29Op struct {
 	Op    string   `json:"op"`            // set del get has batch iter snap snapget snaphas snapiter snapclose reopen drain
 	Via   string   `json:"via,omitempty"` // raw | wrap
-	Key   B        `json:"key,omitempty"`
-	Val   B        `json:"val,omitempty"`
+	Key   B        `json:"key"`
+	Val   B        `json:"val"`
 	Sync  bool     `json:"sync,omitempty"`
 	Size  int      `json:"size,omitempty"` // batch: >0 -> NewBatchWithSize
 	Batch []c29BOp `json:"batch,omitempty"`
@@ -56,7 +56,7 @@ type c29Op struct {
 type c29Case struct {
 	Backend string  `json:"backend"`
 	Wrap    string  `json:"wrap"` // none | prefix | immutable | collecting
-	Prefix  B       `json:"prefix,omitempty"`
+	Prefix  B       `json:"prefix"`
 	Small   bool    `json:"small,omitempty"` // goleveldb: open with small engine buffers
 	Ops     []c29Op `json:"ops"`
 }
@@ -166,9 +166,20 @@ func c29DrawIt(rt *rapid.T, label string, pre []byte) c29It {
 	return it
 }
 
-func c29Draw(rt *rapid.T) c29Case {
-	c := c29Case{Backend: rapid.SampledFrom(c29Backends()).Draw(rt, "backend")}
-	c.Wrap = rapid.SampledFrom([]string{"none", "none", "none", "prefix", "prefix", "immutable", "collecting"}).Draw(rt, "wrap")
+func c29Draw(rt *rapid.T) c29Case { return c29DrawFor(rt, false) }
+
+// c29DrawFor draws a case; wrappersOnly pins the back-end to memdb and always
+// puts a wrapper DB on top (the wrappers are back-end independent and memdb
+// histories cost microseconds).
+func c29DrawFor(rt *rapid.T, wrappersOnly bool) c29Case {
+	var c c29Case
+	if wrappersOnly {
+		c.Backend = "memdb"
+		c.Wrap = rapid.SampledFrom([]string{"prefix", "prefix", "prefix", "immutable", "collecting", "collecting"}).Draw(rt, "wrap")
+	} else {
+		c.Backend = rapid.SampledFrom(c29Backends()).Draw(rt, "backend")
+		c.Wrap = rapid.SampledFrom([]string{"none", "none", "none", "prefix", "prefix", "immutable", "collecting"}).Draw(rt, "wrap")
+	}
 	if c.Wrap == "prefix" {
 		// cpIncr (util.go) has CONTRACT len(bz) > 0, so a PrefixDB prefix is never empty.
 		c.Prefix = c29DrawBytes(rt, "prefix", 2)
@@ -823,8 +834,19 @@ func c29Exec(ctx *vk.Ctx, c c29Case) (err error) {
 				}
 				batchSeq++
 			}
-			if e := b.Close(); e != nil {
-				return fmt.Errorf("%s: Close: %v", what, e)
+			var ce error
+			if p := c29Recover(func() { ce = b.Close() }); p != nil {
+				// pebble: a batch pre-sized below its 12-byte header and never staged into panics in
+				// Batch.Reset (data[:12] on a smaller buffer) when it is released.
+				if c.Backend == "pebbledb" && op.Size > 0 && op.Size < 12 && len(op.Batch) == 0 && !immut &&
+					!(op.Via == "wrap" && c.Wrap == "collecting") && ctx.Known("pebbledb-close-panics-on-empty-batch-presized-below-12") {
+					ctx.Class("known:pebbledb-close-panics-on-empty-batch-presized-below-12")
+					break
+				}
+				return fmt.Errorf("%s: Batch.Close panicked: %v", what, p)
+			}
+			if ce != nil {
+				return fmt.Errorf("%s: Close: %v", what, ce)
 			}
 			if e := b.Close(); e != nil {
 				return fmt.Errorf("%s: second Close (documented idempotent): %v", what, e)
@@ -1054,6 +1076,11 @@ func (r *c29Run) physKey(via string, k []byte) []byte {
 }
 
 const c29Rule = "rapid: one back-end (all registered: memdb, goleveldb, pebbledb, boltdb, lmdbdb, mdbxdb) optionally under PrefixDB/ImmutableDB/CollectingDB, and a history of 3-30 ops (set/setSync/delete/deleteSync, get/has, batches written/written-sync/discarded, 1-2 simultaneously open iterators over generated bounds in both directions consumed fully or partly with optional mutation of the returned slices and point reads in between, snapshots taken/read (directly and through SnapshotDB)/closed, drain, close+reopen) over keys from {00,'a','b',FF}^0..3 (nil and empty included) and values incl. nil/empty; non-trivial = the history uses an empty key or value, an iterator bound equal to a stored key, or a snapshot read after a later batch"
+
+func TestC29_Wrappers(t *testing.T) {
+	vk.Run(t, vk.Spec[c29Case]{ID: "C29", Name: "TestC29_Wrappers", Rule: "as TestC29_Backends, but always memdb under one of PrefixDB (prefix of 1-2 bytes, keys adjacent to the prefix range included) / ImmutableDB / CollectingDB (with drains), ops addressed to the wrapper and to the raw DB; " + c29Rule[strings.Index(c29Rule, "non-trivial"):],
+		Draw: func(rt *rapid.T) c29Case { return c29DrawFor(rt, true) }, Exec: c29Exec})
+}
 
 func TestC29_Backends(t *testing.T) {
 	vk.Run(t, vk.Spec[c29Case]{ID: "C29", Name: "TestC29_Backends", Rule: c29Rule, Draw: c29Draw, Exec: c29Exec})
